@@ -183,3 +183,16 @@ PROPS["C02"] = dict(
     design_ref="§6 C02",
     scope="all piece lists / all statements of the model under Safe; generated statements for the tie and the entry points",
 )
+
+from stages import stage_c07
+PROPS["C07"] = dict(
+    groups=["token", "escape", "quote"],
+    lean_props=["SeaQ.Props.C02"],
+    lean_obligations=["SeaQ.Lemmas.Scan", "SeaQ.Props.C01"],
+    extra=[stage_c07],
+    technique="Lean 4 statement rendering model (SQLite dialect) tied to the crate by differential runs; the machine-checked part is that the inline and the parameterised form are the same statement (C02_substitute) with the placeholders bound one-to-one (C01_placeholders); what the statement DOES is decided by execution: every generated statement over a fixed schema is run on a real SQLite (python sqlite3) as inline text, as parameterised text with bound values and as an independently written fully explicit rendering of the same builder calls, and rows, RETURNING rows and table contents are compared",
+    level_text="Partial by nature: execution semantics live in the engine. Proved (Lean): both rendering modes are one statement for every Safe rendering. Validated by execution on the engine: acceptance of both forms and equality of effect with the explicit reference rendering, for generated statements over the property's SQLite feature list.",
+    level_note=_STMT_MODEL_NOTE + " The explicit reference renderer (harness/src/c07.rs, written from SQLite's grammar) and the SQLite library linked into python3 are trusted for the engine stage.",
+    design_ref="§6 C07",
+    scope="generated statements over a fixed schema; theorem part: all Safe renderings",
+)
